@@ -383,9 +383,14 @@ impl ProveState {
     }
 
     pub(crate) fn is_parent_of(&self, child_last_state: &LastState) -> bool {
-        self.get_last_header()
-            .header()
-            .is_parent_of(child_last_state.header())
+        let parent = self.get_last_header();
+        let child = child_last_state.as_ref();
+        // The total difficulty in the chain root which is committed by the child, is provided by
+        // the peer; it should be consistent with the proved parent.
+        let child_parent_total_difficulty: U256 =
+            child.parent_chain_root().total_difficulty().unpack();
+        parent.header().is_parent_of(child_last_state.header())
+            && parent.total_difficulty() == child_parent_total_difficulty
     }
 
     pub(crate) fn get_last_header(&self) -> &VerifiableHeader {
